@@ -66,6 +66,8 @@ def tolerated(case, out, bucket):
 def prop(case, ctx):
     out = Outcome()
     out.label('family:' + case['family'], 'rule:' + case['opts']['rule'])
+    if case.get('planted'):
+        out.label('planted:' + case['planted'])
     if not case['records']:
         return out.label('no_records')
     try:
